@@ -127,7 +127,10 @@ fn dispatch<R: Rd>(p: &mut Probe, mk: &dyn Fn(&[u8]) -> R, ss: &SecSet, primary:
         21 => drv_eh_hdr(p, mk(&ss.eh_frame_hdr), mk(&ss.eh_frame), cfg),
         _ => {
             drv_expr_ops(p, mk(&ss.expr), cfg.encoding());
-            drv_eval(p, mk(&ss.expr), cfg.encoding(), choice);
+            // callee expressions in buffers of their own: skip +0; lit1; bra +1; nop; lit1 / skip -3 / reg0 followed by nops
+            const CALLEES: [&[u8]; 4] = [&[0x2f, 0x00, 0x00, 0x31], &[0x31, 0x28, 0x01, 0x00, 0x96, 0x31], &[0x2f, 0xfd, 0xff], &[0x50, 0x96, 0x96, 0x96, 0x96, 0x96, 0x96, 0x96, 0x96, 0x96, 0x96, 0x96, 0x96, 0x96, 0x96, 0x96]];
+            let others: Vec<R> = CALLEES.iter().map(|b| mk(b)).collect();
+            drv_eval(p, mk(&ss.expr), cfg.encoding(), choice, &others);
         }
     }
 }
